@@ -34,6 +34,7 @@ import (
 	"git.arvados.org/arvados.git/lib/cloud"
 	"git.arvados.org/arvados.git/sdk/go/arvados"
 	"github.com/prometheus/client_golang/prometheus"
+	dto "github.com/prometheus/client_model/go"
 	"github.com/sirupsen/logrus"
 	"golang.org/x/crypto/ssh"
 	"pgregory.net/rapid"
@@ -267,6 +268,14 @@ func bType(i int) arvados.InstanceType {
 	return arvados.InstanceType{Name: fmt.Sprintf("type%d", i), ProviderType: fmt.Sprintf("p%d", i), VCPUs: i, RAM: arvados.ByteSize(i) << 30, Price: float64(i)}
 }
 
+func bSampleCount(s prometheus.Summary) uint64 {
+	var mm dto.Metric
+	if s.Write(&mm) != nil || mm.Summary == nil {
+		return 0
+	}
+	return mm.Summary.GetSampleCount()
+}
+
 func bUUID(i int) string { return fmt.Sprintf("zzzzz-dz642-%015d", i) }
 
 type bWorkerSnap struct {
@@ -387,29 +396,79 @@ func TestVerifC14bPool(t *testing.T) {
 				time.Sleep(50 * time.Microsecond)
 			}
 		}
-		// guarded runs f; a panic "close of closed channel" out of the pool's
-		// bookkeeping is the known double-Close defect when the model saw its
-		// precondition.
+		// guarded runs f; a panic out of the pool's bookkeeping is a failure (R3)
 		guarded := func(what string, f func()) {
 			defer func() {
 				if r := recover(); r != nil {
-					msg := fmt.Sprint(r)
-					detail := fmt.Sprintf("panic %q in %s after: %s", msg, what, strings.Join(h.hist, " | "))
-					if strings.Contains(msg, "close of closed channel") && h.labels["runner-readded-after-close"] &&
-						stats.Known("pool-double-close-runner", detail) {
-						knownHit = true
-						return
-					}
-					t.Fatalf("R3: %s", detail)
+					t.Fatalf("R3: panic %q in %s\nhistory:\n%s", fmt.Sprint(r), what, strings.Join(h.hist, "\n"))
 				}
 			}()
 			f()
 		}
-
-		checkRunning := func(where string) {
-			if knownHit {
+		// R3 stated as an invariant instead of waiting for the crash: the pool
+		// must never keep a runner whose Close() has already been called (the
+		// next closeRunner()/worker.Close() for it panics with "close of closed
+		// channel", on a pool goroutine in production).
+		var allWorkers []*worker
+		checkPoison := func() {
+			// only workers that are in the pool: a worker dropped by sync() is
+			// closed exactly once and never looked at again
+			wp.mtx.Lock()
+			allWorkers = allWorkers[:0]
+			for _, w := range wp.workers {
+				allWorkers = append(allWorkers, w)
+			}
+			var poisoned []string
+			for _, w := range allWorkers {
+				for u, rr := range w.running {
+					if rr.isClosed() {
+						poisoned = append(poisoned, fmt.Sprintf("%s running[%s]", w.instance.ID(), u))
+						delete(w.running, u) // repair (what the proposed fix does) so the case can go on
+					}
+				}
+				for u, rr := range w.starting {
+					if rr.isClosed() {
+						poisoned = append(poisoned, fmt.Sprintf("%s starting[%s]", w.instance.ID(), u))
+						delete(w.starting, u)
+					}
+				}
+			}
+			wp.mtx.Unlock()
+			if len(poisoned) == 0 {
 				return
 			}
+			sort.Strings(poisoned)
+			detail := fmt.Sprintf("closed remoteRunner kept in %v after: %s", poisoned, strings.Join(h.hist, " | "))
+			if h.labels["runner-readded-after-close"] && stats.Known("pool-double-close-runner", detail) {
+				knownHit = true
+				h.labels["known-double-close"] = true
+				return
+			}
+			t.Fatalf("R3: the pool keeps a remoteRunner that was already closed (the next closeRunner/worker.Close for it panics: close of closed channel): %v\nhistory:\n%s",
+				poisoned, strings.Join(h.hist, "\n"))
+		}
+		// settle waits for the pool's fire-and-forget goroutines whose effect the
+		// model looks at (Destroy calls of workers that were just shut down).
+		settle := func() {
+			wp.mtx.Lock()
+			var down []*bInst
+			for _, w := range wp.workers {
+				if w.state == StateShutdown {
+					down = append(down, w.instance.(TagVerifier).Instance.(*bInst))
+				}
+			}
+			wp.mtx.Unlock()
+			for _, inst := range down {
+				inst := inst
+				waitFor("Destroy call", func() bool {
+					inst.mu.Lock()
+					defer inst.mu.Unlock()
+					return inst.destroyCalls > 0
+				})
+			}
+		}
+
+		checkRunning := func(where string) {
 			running := wp.Running()
 			h.mu.Lock()
 			defer h.mu.Unlock()
@@ -439,10 +498,14 @@ func TestVerifC14bPool(t *testing.T) {
 			}
 		}
 
-		t.Repeat(map[string]func(*rapid.T){
-			"": func(t *rapid.T) { checkRunning("after step") },
+		actions := map[string]func(*rapid.T){
+			"": func(t *rapid.T) {
+				settle()
+				checkPoison()
+				checkRunning("after step")
+			},
 			"create": func(t *rapid.T) {
-				if len(existing()) >= 3 || knownHit {
+				if len(existing()) >= 3 {
 					t.Skip()
 				}
 				it := types[rapid.IntRange(0, 1).Draw(t, "type")]
@@ -483,28 +546,25 @@ func TestVerifC14bPool(t *testing.T) {
 			},
 			"vanish": func(t *rapid.T) {
 				inst := pickInst(t)
-				h.mu.Lock()
 				// only instances the pool asked to destroy, or (rarely) any
-				if inst.destroyCalls == 0 && rapid.IntRange(0, 3).Draw(t, "spontaneous") > 0 {
-					h.mu.Unlock()
+				spont := rapid.IntRange(0, 3).Draw(t, "spontaneous") == 0
+				inst.mu.Lock()
+				asked := inst.destroyCalls > 0
+				inst.mu.Unlock()
+				if !asked && !spont {
 					t.Skip()
 				}
+				h.mu.Lock()
 				inst.exists = false
 				h.mu.Unlock()
 				h.logf("vanish(%s)", inst.id)
 			},
 			"sync": func(t *rapid.T) {
-				if knownHit {
-					t.Skip()
-				}
 				guarded("sync", func() { wp.getInstancesAndSync() })
 				h.logf("sync")
 				nActions++
 			},
 			"probe": func(t *rapid.T) {
-				if knownHit {
-					t.Skip()
-				}
 				inst := pickInst(t)
 				wkr := workerOf(inst)
 				if wkr == nil {
@@ -530,9 +590,6 @@ func TestVerifC14bPool(t *testing.T) {
 				h.logf("age(%s)", inst.id)
 			},
 			"idleBehavior": func(t *rapid.T) {
-				if knownHit {
-					t.Skip()
-				}
 				inst := pickInst(t)
 				ib := rapid.SampledFrom([]IdleBehavior{IdleBehaviorRun, IdleBehaviorHold, IdleBehaviorDrain}).Draw(t, "ib")
 				err := wp.SetIdleBehavior(inst.id, ib)
@@ -548,9 +605,6 @@ func TestVerifC14bPool(t *testing.T) {
 				nActions++
 			},
 			"start": func(t *rapid.T) {
-				if knownHit {
-					t.Skip()
-				}
 				it := types[rapid.IntRange(0, 1).Draw(t, "type")]
 				uuid := bUUID(rapid.IntRange(1, 4).Draw(t, "uuid"))
 				// the scheduler never starts a container that Running() lists
@@ -559,8 +613,17 @@ func TestVerifC14bPool(t *testing.T) {
 				}
 				pre := map[cloud.InstanceID]bWorkerSnap{}
 				wp.mtx.Lock()
+				base := time.Now().Add(-time.Minute)
 				for id, w := range wp.workers {
 					pre[id] = bWorkerSnap{w.state, w.idleBehavior, w.instType.Name}
+					// StartContainer prefers the most recently busy eligible
+					// worker; make that order a function of the instance
+					// number instead of wall-clock readings / map order
+					// (idle timeouts are an hour here, so nothing else
+					// looks at busy)
+					var n int
+					fmt.Sscanf(string(id), "i-%d", &n)
+					w.busy = base.Add(time.Duration(n) * time.Second)
 				}
 				wp.mtx.Unlock()
 				ok := wp.StartContainer(it, arvados.Container{UUID: uuid, State: arvados.ContainerStateLocked, Priority: 1})
@@ -594,9 +657,11 @@ func TestVerifC14bPool(t *testing.T) {
 				if inst.idle != IdleBehaviorRun {
 					bad = append(bad, fmt.Sprintf("idle behaviour is %q", inst.idle))
 				}
+				inst.mu.Lock()
 				if inst.destroyCalls > 0 {
 					bad = append(bad, "the pool has already asked the cloud to destroy it")
 				}
+				inst.mu.Unlock()
 				if inst.it.Name != it.Name {
 					bad = append(bad, "wrong instance type "+inst.it.Name)
 				}
@@ -645,9 +710,6 @@ func TestVerifC14bPool(t *testing.T) {
 				h.logf("detachArrive(%s,%s) ok=%v", p.inst.id, p.uuid, p.ok)
 			},
 			"detachReturn": func(t *rapid.T) {
-				if knownHit {
-					t.Skip()
-				}
 				h.mu.Lock()
 				var cands []*bPending
 				for _, p := range h.pending {
@@ -664,12 +726,15 @@ func TestVerifC14bPool(t *testing.T) {
 				// precondition of the double-Close defect: the runner was
 				// moved to running by a probe and closed by a later probe
 				// while its Start() call had not returned yet
-				readded := false
+				readded, moved := false, false
+				var updatedBefore time.Time
 				if wkr != nil {
 					wp.mtx.Lock()
 					_, inStarting := wkr.starting[p.uuid]
 					_, inRunning := wkr.running[p.uuid]
+					updatedBefore = wkr.updated
 					wp.mtx.Unlock()
+					moved = !inStarting
 					readded = !inStarting && !inRunning
 				}
 				h.mu.Lock()
@@ -680,16 +745,35 @@ func TestVerifC14bPool(t *testing.T) {
 					}
 				}
 				h.mu.Unlock()
+				startsBefore := bSampleCount(wp.mTimeFromQueueToCrunchRun)
 				close(p.ret)
-				if wkr != nil {
-					// startContainer's goroutine finishes its bookkeeping
+				// rr.Start() has returned once the pool has observed its
+				// queue-to-crunch-run metric; the bookkeeping follows at once
+				waitFor("Start() to return", func() bool { return bSampleCount(wp.mTimeFromQueueToCrunchRun) > startsBefore })
+				if wkr != nil && !moved {
+					// still in wkr.starting: it is promoted to wkr.running now
 					waitFor("start bookkeeping", func() bool {
 						wp.mtx.Lock()
 						defer wp.mtx.Unlock()
 						_, inStarting := wkr.starting[p.uuid]
-						_, inRunning := wkr.running[p.uuid]
-						return !inStarting && inRunning
+						return !inStarting
 					})
+				} else if wkr != nil {
+					// A probe already took the runner out of wkr.starting.
+					// Correct code has nothing left to do; the defective code
+					// stamps wkr.updated and re-inserts the runner. Give that a
+					// moment to happen so that the very next invariant check
+					// sees it (if it is slower than this, a later check does).
+					deadline := time.Now().Add(3 * time.Millisecond)
+					for time.Now().Before(deadline) {
+						wp.mtx.Lock()
+						changed := wkr.updated != updatedBefore
+						wp.mtx.Unlock()
+						if changed {
+							break
+						}
+						time.Sleep(20 * time.Microsecond)
+					}
 				}
 				if readded {
 					h.labels["runner-readded-after-close"] = true
@@ -722,51 +806,79 @@ func TestVerifC14bPool(t *testing.T) {
 				h.logf("procExit(%s,%s)", inst.id, u)
 			},
 			"kill": func(t *rapid.T) {
-				if knownHit {
-					t.Skip()
-				}
-				uuid := bUUID(rapid.IntRange(1, 4).Draw(t, "uuid"))
+				uuid := bUUID(rapid.SampledFrom([]int{1, 2, 3, 4, 10, 11}).Draw(t, "uuid"))
 				var rr *remoteRunner
+				var wkr *worker
+				var wasStopping bool
+				unkillable := make(chan struct{})
 				wp.mtx.Lock()
 				for _, w := range wp.workers {
-					if r := w.running[uuid]; r != nil {
-						rr = r
-					} else if r := w.starting[uuid]; r != nil {
-						rr = r
+					r := w.running[uuid]
+					if r == nil {
+						r = w.starting[uuid]
+					}
+					if r != nil {
+						rr, wkr, wasStopping = r, w, r.stopping
+						if !wasStopping {
+							// Whether the kill can succeed is known from the model.
+							// If it can, never give up (so that machine load cannot
+							// turn it into a give-up); if it cannot, give up after
+							// 50 signal periods.
+							inst := w.instance.(TagVerifier).Instance.(*bInst)
+							h.mu.Lock()
+							p := inst.procs[uuid]
+							_, inRunning := w.running[uuid]
+							canSucceed := inst.exists && inst.responsive && inRunning && (p == nil || !p.alive || p.killable)
+							h.mu.Unlock()
+							if canSucceed {
+								r.timeoutTERM = time.Hour
+							} else {
+								r.timeoutTERM = 50 * time.Millisecond
+							}
+							// completion signal for the give-up path (no change of behaviour)
+							orig := r.onUnkillable
+							r.onUnkillable = func(u string) {
+								orig(u)
+								close(unkillable)
+							}
+						}
 					}
 				}
 				wp.mtx.Unlock()
 				ok := wp.KillContainer(uuid, "verif")
 				h.logf("kill(%s)=%v", uuid, ok)
 				nActions++
-				if !ok || rr == nil {
+				if !ok || rr == nil || wasStopping {
 					return
 				}
 				h.labels["kill"] = true
 				// the kill loop ends when the runner is closed (process gone) or it gives up
+				given := false
 				waitFor("kill loop", func() bool {
+					select {
+					case <-unkillable:
+						given = true
+						return true
+					default:
+					}
 					wp.mtx.Lock()
 					defer wp.mtx.Unlock()
-					return rr.isClosed() || rr.givenup
+					return rr.isClosed()
 				})
-				wp.mtx.Lock()
-				given := rr.givenup
-				wp.mtx.Unlock()
 				if given {
 					// onUnkillable drains the worker unless it is held
-					time.Sleep(200 * time.Microsecond)
+					inst := wkr.instance.(TagVerifier).Instance.(*bInst)
 					h.mu.Lock()
-					for _, i := range h.insts {
-						if ex := h.expect[uuid]; ex != nil && ex.inst == i && i.idle == IdleBehaviorRun {
-							i.idle = IdleBehaviorDrain
-						}
+					if inst.idle == IdleBehaviorRun {
+						inst.idle = IdleBehaviorDrain
 					}
 					h.mu.Unlock()
 					h.labels["unkillable"] = true
+					h.logf("  -> gave up, %s drains unless held", inst.id)
 				}
 			},
 			"forget": func(t *rapid.T) {
-				uuid := bUUID(rapid.IntRange(1, 4).Draw(t, "uuid"))
+				uuid := bUUID(rapid.SampledFrom([]int{1, 2, 3, 4, 10, 11}).Draw(t, "uuid"))
 				before := wp.Running()
 				wp.ForgetContainer(uuid)
 				h.mu.Lock()
@@ -779,11 +891,14 @@ func TestVerifC14bPool(t *testing.T) {
 				h.mu.Unlock()
 				h.logf("forget(%s)", uuid)
 			},
-		})
-		if knownHit {
-			stats.Case(stats.FP(strings.Join(h.hist, "|")), true, "known-double-close")
-			return
 		}
+		// weight the actions that move the pool's bookkeeping
+		for _, k := range []string{"start", "probe", "detachArrive", "detachReturn", "procExit", "sync"} {
+			actions[k+"2"] = actions[k]
+		}
+		actions["probe3"] = actions["probe"]
+		t.Repeat(actions)
+		_ = knownHit
 		labels := make([]string, 0, len(h.labels))
 		for l := range h.labels {
 			labels = append(labels, l)
